@@ -69,10 +69,11 @@ def components(obs, exp_tree, cmd):
     if any(k.startswith(".tmpRAND") for k in extras):
         comps.add("probe_left_on_failure")
     if core != _core(pre["tree"]):
-        if exp_tree is not None and core == exp_tree:
+        moved = [k for k in pre["tree"] if k not in core]
+        if exp_tree is not None and core == exp_tree and moved:
             comps.add("tree_fully_applied")
         else:
-            moved = [k for k in pre["tree"] if k not in core]
+            # (a plan without renames that is "fully applied" has only rewritten files: that is content_new_kept)
             changed = [k for k in pre["tree"] if k in core and core[k] != pre["tree"][k]]
             new_ok = True
             if changed:
@@ -112,15 +113,15 @@ def _ph(*names):
 
 FINDINGS = {
     "tmp_left": [("tmp_left_behind", _is_tmp_op)],
-    "content_new_kept": [("content_not_rolled_back", lambda pt, obs: pt is None or pt.get("phase") in ("content", "renames"))],
+    # clause = failure after the first completed content edit: ANY later fault point (the renames are rolled back, the
+    # rewritten files are not), or a stale plan
+    "content_new_kept": [("content_not_rolled_back", lambda pt, obs: True)],
     "paths_moved": [
-        ("rollback_nested_fails", lambda pt, obs: pt is not None and pt.get("phase") == "renames"
-         and "Rollback encountered errors" in obs["stderr"]),
+        ("rollback_nested_fails", lambda pt, obs: pt is not None and "Rollback encountered errors" in obs["stderr"]),
         ("log_failure_skips_rollback", lambda pt, obs: pt is not None and pt.get("phase") == "renames" and pt["op"] == "log"
          and "Rollback" not in obs["stderr"]),
     ],
-    # (phase "content": the log lines after the LAST content edit of a plan without renames)
-    "tree_fully_applied": [("late_failure_no_rollback", _ph("content", "renames", "backup", "history", "plans", "final"))],
+    "tree_fully_applied": [("late_failure_no_rollback", _ph("renames", "backup", "history", "plans", "final"))],
     "history_gained_on_failure": [("failure_after_history_recorded", _ph("plans", "final", "history"))],
     "success_not_recorded": [("history_write_failure_swallowed",
                               lambda pt, obs: pt is not None and pt["op"] == "write .renamify/history.json")],
